@@ -171,6 +171,8 @@ class Execute(Contract):
              len(args) = len(_arglist), args[i] = lookup(E, _arglist[i]).
     ensures  never raises; yields len(_exprs) values; value j = ev(_exprs[j], E) - the SAME term with common_subexpression_elimination on and off."""
 
+    assignable = ()  # frame: attributes of self the method may write
+
     key = "formak.python:BasicBlock.execute"
 
     def __init__(self, cse=True):
